@@ -237,7 +237,12 @@ pub fn run_job(job: &Value) -> Value {
         let catalog = storage.catalog().clone();
         let stat = Statistics::default();
         let cfg = Config::default();
-        let mut setup = vec!["create table l(g int, k1 int, k2 int, p int)".to_string(), "create table r(g int, k1 int, k2 int, q int)".to_string()];
+        // (the key columns of either table may be declared with other numeric types: joins on keys of different types)
+        let ddl = |name: &str, last: &str| match job.get("key_types").and_then(|k| k.get(name)).and_then(|v| v.as_array()) {
+            Some(t) => format!("create table {name}(g int, k1 {}, k2 {}, {last} int)", t[0].as_str().unwrap(), t[1].as_str().unwrap()),
+            None => format!("create table {name}(g int, k1 int, k2 int, {last} int)"),
+        };
+        let mut setup = vec![ddl("l", "p"), ddl("r", "q")];
         for t in ["l", "r"] {
             let rows = job["tables"][t].as_array().unwrap();
             for chunk in rows.chunks(400) {
